@@ -11,6 +11,7 @@ LEVEL = {
  "C04": ("DESIGN.md §5 C04", "Same engine with trigger-placed NewTerm requests (held until the target node is in the middle of an operation) and elections forced over a live busy leader; reported head vs. real log end, log frozen after the fence, no ack in older terms."),
  "C05": ("DESIGN.md §5 C05", "Same engine, election-heavy (coordinator crashes, muted leaders, node swaps); monitors on metadata stores and coordination RPCs for durable-before-send, monotonic terms, one leader per term, fenced majority and best in-ensemble head."),
  "C06": ("DESIGN.md §5 C06", "Seeded search over write programs on three real nodes (harness as coordinator) with schedules that split application across routes: live on the leader, follower replay, graceful and crash restarts, leader changes right after pipelined bursts, snapshot installation with random chunk sizes; every replica's DB dump compared with the reference model folded to that replica's commit offset, and replicas at equal offsets byte-wise."),
+ "C07": ("DESIGN.md §5 C07", "Seeded search over crash instants (inside concurrent bursts and between operations, leader and followers, power loss or kill) with the Pebble engine on a strict in-memory file system and injected engine flushes; after every restart the DB dump is compared, before any replay, with the reference model folded over entries 0..c of the log (c = stored commit offset, never beyond the node's log), and after replay with the fold to the new offset."),
  "C08": ("DESIGN.md §5 C08", "Seeded search over schedules (lock-site yields, latencies, ack order) of concurrent writers on a fault-free real 3-node cluster with the real coordinator; wire-level and end-of-run invariants on offsets, responses, apply order and the commit offset."),
  "C09": ("DESIGN.md §5 C09", "Seeded search over generated WAL programs (segment/entry sizes, truncation/trim/reopen placement) run on the real WAL inside a simulated-clock bubble and compared op by op with a list model. Sampling, not proof: a clean batch is evidence that the WAL refines the list model on the explored programs."),
  "C10": ("DESIGN.md §5 C10", "Seeded search over crash images (durable shadow + any subset of unsynced pages, torn page, lost index files) and single mutations of record headers/payload/index files for both formats; the real recovery code reopens and reads each image inside recover(). Evidence that recovery yields a clean prefix or an error on the explored images."),
